@@ -33,6 +33,9 @@ _fd.declare("fin", ("val", R))
 FL = _fd.create()       # Python float with NaN: nan | fin(real)
 
 
+PY_INF = z3.Real("py_inf")      # float('inf') where it is only compared: a real above every finite value met
+
+
 def zsort(kind):
     return {"int": I, "real": R, "bool": B, "float": FL}[kind]
 
@@ -245,6 +248,18 @@ class Engine:
                     self.alias[node.targets[0].id] = root.id
         self.cur_src = "?"
         self.lemmas_used = set()
+        self.ufs = {}       # uninterpreted functions standing for the opaque calls of the contract
+        for d in (getattr(contract, "opaque_calls", None) or {}).values():
+            if "fn" in d:
+                if d["fn"] not in self.ufs:
+                    doms = [zsort(k_) for k_ in d.get("arg_kinds", ["int"] * len(d["args"]))]
+                    if d.get("with_recv"):
+                        doms = [I] + doms
+                    rng_ = zsort(d.get("ret", "real"))
+                    if doms:
+                        self.ufs[d["fn"]] = z3.Function("uf_" + d["fn"], *(doms + [rng_]))
+                    else:
+                        self.ufs[d["fn"]] = (lambda c_=z3.Const("uf_" + d["fn"], rng_): c_)
         self.spec_depth = 0         # > 0 while evaluating contract / spec expressions (total: no safety VCs)
 
     def evc(self, src, st, guard=()):
@@ -352,6 +367,8 @@ class Engine:
             return v
         if node.id in ("True", "False"):
             return node.id == "True"
+        if node.id == "INF" and self.spec_depth > 0:
+            return PY_INF
         if node.id in self.imports or node.id in self.registry.by_name:
             return PyObj("func", node.id)
         raise ContractError("unbound name %s (line %s)" % (node.id, getattr(node, "lineno", "?")))
@@ -370,6 +387,8 @@ class Engine:
         raise Unsupported("unary op")
 
     def arith(self, op, a, b, st, line, guard):
+        if any(is_z3(x) and x.eq(PY_INF) for x in (a, b)):
+            raise Unsupported("arithmetic on float('inf') at line %s" % line)
         if isinstance(op, ast.Mult) and isinstance(a, Ref) and isinstance(b, PyObj) and b.kind == "colvec" \
                 and self.ref_ndim(st, a) == 1:
             # numpy broadcasting  row[k] * col[:, newaxis]  ->  out[i][k] = col[i] * row[k]
@@ -521,6 +540,7 @@ class Engine:
                 elif self.is_set(st, right) and not isinstance(left, (tuple, Ref, PyObj)):
                     m = self.sel(st, right, [to_z3(left)])
                 elif ho.kind == "dict" and not isinstance(left, (tuple, Ref, PyObj)):
+                    ho = self.dict_keyed(st, right, to_z3(left))
                     m = z3.Select(ho.dom, to_z3(left))
                 else:
                     raise Unsupported("membership test of this shape")
@@ -571,11 +591,22 @@ class Engine:
         st.heap[base] = HeapObj(None, [], None, 1, "dict", dom=z3.K(I, z3.BoolVal(False)))
         return Ref(base)
 
+    def dict_keyed(self, st, ref, key):
+        """a dict literal `{}` takes the sort of its keys at first use (int ids by default, opaque strings)"""
+        ho = st.heap[ref.base]
+        if key.sort() != ho.dom.sort().domain():
+            if ho.arr is None and ho.dom.eq(z3.K(I, z3.BoolVal(False))):
+                ho = ho.replace(dom=z3.K(key.sort(), z3.BoolVal(False)))
+                st.heap[ref.base] = ho
+            else:
+                raise Unsupported("dict with keys of two kinds")
+        return ho
+
     def dict_val_arr(self, st, ref, like=None):
         ho = st.heap[ref.base]
         if ho.arr is None:
             kind = "real" if (like is not None and is_real(like)) else "int"
-            ho = ho.replace(arr=fresh(ref.base + ".val", arr_sort(kind, 1)), elem=kind)
+            ho = ho.replace(arr=fresh(ref.base + ".val", z3.ArraySort(ho.dom.sort().domain(), zsort(kind))), elem=kind)
             st.heap[ref.base] = ho
         return ho
 
@@ -596,7 +627,16 @@ class Engine:
                     externals.USED.add("comprehension [{Element(x) for x in b} for b in buckets]: elementwise copy (A-elem)")
                     ho = st.heap[src.base]
                     return self.new_array(st, "copy", "bool", 2, shape=ho.shape, arr=ho.arr, kind="setlist")
+        if getattr(self.contract, "opaque_glue", False):
+            return PyObj("opaque", None)
         raise Unsupported("list comprehension at line %s" % node.lineno)
+
+    def ev_SetComp(self, node, st, guard):
+        if getattr(self.contract, "opaque_glue", False):
+            return PyObj("opaque", None)
+        raise Unsupported("set comprehension at line %s" % node.lineno)
+
+    ev_DictComp = ev_SetComp
 
     def ev_List(self, node, st, guard):
         if not node.elts:
@@ -651,10 +691,15 @@ class Engine:
             if idx == -1:      # split(...)[-1]: split never returns an empty list
                 return fresh("piece", STR)
             raise Unsupported("indexing a list of strings")
+        if isinstance(base, PyObj) and base.kind == "opaque" and getattr(self.contract, "opaque_glue", False):
+            if not isinstance(sl, ast.Slice):
+                self.ev(sl, st, guard)
+            return PyObj("opaque", None)
         if not isinstance(base, Ref):
             raise Unsupported("subscript of non-array at line %s" % node.lineno)
         if st.heap[base.base].kind == "dict":
             key = to_z3(self.ev(sl, st, guard))
+            self.dict_keyed(st, base, key)
             ho = self.dict_val_arr(st, base)
             self.emit("%s.safety.key(%s)" % (self.fn_key.split("::")[-1], ast.unparse(node)), "safety", st,
                       z3.Select(ho.dom, key), node.lineno, guard, note="dict lookup on a present key")
@@ -690,7 +735,11 @@ class Engine:
             key = "%s.%s" % (v.val, node.attr)
             if key in st.env:
                 return st.env[key]
+            if getattr(self.contract, "opaque_glue", False):
+                return PyObj("opaque", None)
             raise Unsupported("read of unset attribute %s" % key)
+        if isinstance(v, PyObj) and v.kind == "opaque" and getattr(self.contract, "opaque_glue", False):
+            return PyObj("opaque", None)
         raise Unsupported("attribute %s at line %s" % (node.attr, node.lineno))
 
     def ev_Lambda(self, node, st, guard):
@@ -756,6 +805,54 @@ class Engine:
                 return self.specs[nm].apply(self, st, args)
             if nm in self.registry.lemmas and self.spec_depth > 0:
                 return self.lemma_call(self.registry.lemmas[nm], node, st, guard)
+            if self.spec_depth > 0 and nm in self.ufs:
+                return self.ufs[nm](*[to_z3(self.ev(a, st, guard)) for a in node.args])
+        oc = getattr(self.contract, "opaque_calls", None) or {}
+        cname = node.func.id if isinstance(node.func, ast.Name) else (node.func.attr if isinstance(node.func, ast.Attribute) else None)
+        if self.spec_depth == 0 and oc and cname is not None and isinstance(node.func, ast.Attribute):
+            # a dotted key (`self._aux.run`) is more specific than the bare method name
+            full = ast.unparse(node.func)
+            dotted = [k_ for k_ in oc if "." in k_ and (full == k_ or full.endswith("." + k_))]
+            if dotted:
+                cname = max(dotted, key=len)
+        if self.spec_depth == 0 and cname in oc and cname not in st.env:
+            from pyvc import externals
+            d = oc[cname]
+            if d.get("count"):      # ghost counter of the calls made to this callee
+                st.env[d["count"]] = to_z3(st.env[d["count"]]) + 1
+            recv = None
+            if isinstance(node.func, ast.Attribute):
+                rn = node.func.value
+                if not (isinstance(rn, ast.Name) and rn.id not in st.env):      # a class name: nothing to evaluate
+                    recv = self.ev(rn, st, guard)
+                    if d.get("with_recv"):
+                        if not (is_z3(recv) and z3.is_int(recv)):
+                            raise Unsupported("opaque method %s: the receiver is not an item known by identity" % cname)
+                    elif not (isinstance(recv, PyObj) and recv.kind in ("object", "opaque")):
+                        raise Unsupported("opaque call %s on a modelled receiver" % cname)
+                    if d.get("recv") is not None and ast.unparse(rn) != d["recv"]:
+                        raise Unsupported("opaque call %s on receiver %s (contract: %s)" % (cname, ast.unparse(rn), d["recv"]))
+            args = [self.ev(a, st, guard) for a in node.args]
+            for kw in node.keywords:
+                self.ev(kw.value, st, guard)
+            ret = d.get("ret", "real")
+            if ret == "obj":
+                externals.USED.add("%s(...) returns an object the fragment does not look into" % cname)
+                return PyObj("opaque", None)
+            if ret == "tuple":
+                externals.USED.add("%s(...) returns %d objects the fragment does not look into" % (cname, d["n"]))
+                return tuple(PyObj("opaque", None) for _ in range(d["n"]))
+            if ret == "list":
+                externals.USED.add("%s(...) returns a list of items known by identity only" % cname)
+                return self.new_array(st, "opq_" + cname, "int", 1, kind="list")
+            externals.USED.add("%s(...) is a pure function (%s) of its arguments of rank %s (A-pure-call)"
+                               % (cname, d["fn"], d["args"]))
+            zargs = [to_z3(args[i]) for i in d["args"]]
+            zargs = [z3.ToReal(z_) if k_ == "real" and z3.is_int(z_) else z_
+                     for z_, k_ in zip(zargs, d.get("arg_kinds", ["int"] * len(zargs)))]
+            if d.get("with_recv"):
+                zargs = [recv] + zargs
+            return self.ufs[d["fn"]](*zargs)
         fv = self.ev(node.func, st, guard) if not isinstance(node.func, ast.Name) else (
             st.env.get(node.func.id) if node.func.id in st.env else PyObj("func", node.func.id))
         if isinstance(fv, PyObj) and fv.kind == "method":
@@ -999,6 +1096,11 @@ class Engine:
 
     def assign(self, target, val, st, line):
         if isinstance(target, ast.Name):
+            lt = (getattr(self.contract, "local_types", None) or {}).get(target.id)
+            if lt is not None and isinstance(val, Ref) and st.heap[val.base].kind == "list" \
+                    and st.heap[val.base].elem is None:
+                ho = st.heap[val.base]
+                st.heap[val.base] = ho.replace(elem=lt.elem, arr=fresh(val.base, arr_sort(lt.elem, 1)))
             st.env[target.id] = val
         elif isinstance(target, ast.Tuple):
             if not isinstance(val, tuple) or len(val) != len(target.elts):
@@ -1012,6 +1114,7 @@ class Engine:
                 raise Unsupported("subscript store into non-array")
             if st.heap[base.base].kind == "dict":
                 key = to_z3(self.ev(target.slice, st))
+                self.dict_keyed(st, base, key)
                 ho = self.dict_val_arr(st, base, like=val)
                 st.heap[base.base] = ho.replace(arr=z3.Store(ho.arr, key, coerce(val, ho.elem)),
                                                 dom=z3.Store(ho.dom, key, z3.BoolVal(True)))
@@ -1620,7 +1723,9 @@ class Engine:
                 st.env[p] = z
                 inputs[p] = ("scalar", z, ty)
         for key, ty in (c.fields or {}).items():
-            if ty.kind in ("arr", "list"):
+            if ty.kind == "obj":
+                st.env[key] = PyObj("object", key)
+            elif ty.kind in ("arr", "list"):
                 ref = self.new_array(st, "in_" + key, ty.elem, ty.ndim, kind=ty.kind)
                 st.env[key] = ref
                 inputs[key] = ("arr", ref.base, ty)
@@ -1635,6 +1740,11 @@ class Engine:
             t_ = to_bool(self.evc(src, st))
             self.requires_ids[name] = t_.get_id()
             st.pc.append(t_)
+        for d in (getattr(c, "opaque_calls", None) or {}).values():
+            if d.get("below_inf"):
+                xs = [z3.Int("u!q%d" % i) for i in range(len(d["args"]))]
+                app = self.ufs[d["fn"]](*xs)
+                st.pc.append(z3.ForAll(xs, app < PY_INF, patterns=[app]))       # results are finite floats
         self.requires_terms = list(st.pc)
         for gv, src in (c.ghost_vars or {}).items():
             v = self.evc(src, st)
@@ -1648,11 +1758,21 @@ class Engine:
         entry = State(dict(st.env), dict(st.heap), list(st.pc), None)
         st.old = entry
         body = self.fndef.body
-        if frag is not None:
+        if frag is not None and "head" in frag:
+            while body and isinstance(body[0], ast.Expr) and isinstance(body[0].value, ast.Constant):
+                body = body[1:]
+            if frag["head"] > len(body):
+                raise ContractError("fragment: the function has fewer than %d statements" % frag["head"])
+            body = body[:frag["head"]]
+        elif frag is not None:
             loops = [n for n in body if isinstance(n, (ast.While, ast.For))]
             if frag["loop"] > len(loops):
                 raise ContractError("fragment: the function has no top-level loop #%d" % frag["loop"])
-            body = [loops[frag["loop"] - 1]]
+            at = body.index(loops[frag["loop"] - 1])
+            npre = frag.get("prelude", 0)       # the statements right before the loop that belong to the fragment
+            if npre > at:
+                raise ContractError("fragment: fewer than %d statements precede the loop" % npre)
+            body = body[at - npre:at + 1]
         outcomes = self.run_block(body, st)
         fn = self.fn_key.split("::")[-1]
         nret = 0
